@@ -9,8 +9,80 @@ HERE = os.path.dirname(os.path.abspath(__file__))
 CHECKS = {
  "C01": ("runtime monitoring: reference-decoder oracle (own IA-32 decoder, cross-checked by objdump) over enumerated single-statement executions",
          "Exploration with an executable ISA oracle: every (mnemonic x form x register x boundary immediate x memory shape x mode) cell of the quantifier is assembled by the real pipeline and the emitted bytes are decoded and compared with the statement's meaning; thorough enumerates the whole instance space (~6e4 cases), quick takes two seed-chosen cases per cell.",
-         "Trusts the harness's decoder (each distinct byte string is also disassembled by objdump; disagreement makes the case inconclusive) and the diagnostics classifier that decides 'assembled without reporting an error'. Says nothing about statements outside the instance model.",
+         "Trusts the harness's decoder (each distinct byte string is also disassembled by objdump; disagreement makes the case inconclusive) and the diagnostics classifier that decides 'assembled without reporting an error'. Says nothing about statements outside the instance model. 11 listed findings (F101-F111) absorb the defects that remain in the tree.",
          "DESIGN.md §5 C01"),
+ "C02": ("runtime monitoring: reference-decoder oracle restricted to the memory operand, complete addressing space enumerated",
+         "Exploration over the COMPLETE addressing space of the quantifier (16-bit shapes, 32-bit base x index x scale x displacement, 4 spellings) x 10 carrier instructions x widths x modes: thorough runs all ~2e5 cases, quick two per (addressing class, displacement class, carrier, width, mode) cell; only the decoded effective address is judged.",
+         "Same trusted base as C01. A carrier that is mis-encoded outside its memory operand is inconclusive here and reported by C01. Findings F201-F204.",
+         "DESIGN.md §5 C02"),
+ "C03": ("runtime monitoring: output walker (statement-by-statement decode of the flat image) versus embedded label/$ values",
+         "Exploration: every instruction instance of the C01/C02 spaces followed by a label with probes before and after it (systematic, thorough: all), plus seeded random programs of 5-40 statements with labels anywhere; the walker recovers true offsets from the output alone and every embedded label/$ value, branch target and the end-of-output label must agree.",
+         "Programs containing a statement whose encoding is itself wrong are inconclusive for offsets beyond it (the end-of-output check still applies). Random programs use the size-clean pool. Findings F301-F310.",
+         "DESIGN.md §5 C03"),
+ "C04": ("runtime monitoring: decoded branch target versus walked address of the target statement, finite product enumerated",
+         "Exploration: 31 jump mnemonics + CALL x displacements -140..140 and around +-32768 x direction x filler x label/numeric target x ORG x BITS, with/without labels after the branch, plus far JMP boundary values; thorough enumerates the product (~4e4 programs).",
+         "Trusts decoder (objdump cross-check) and walker. Findings F401-F403 (16-bit mode: pass 1 always sizes short forms).",
+         "DESIGN.md §5 C04"),
+ "C05": ("runtime monitoring: independent byte model of the data directives compared byte-exactly through the walker",
+         "Exploration: ALIGNB at every residue for every power of two (exhaustive, 5 origins), seeded DB/DW/DD lists of length 1..64 (numbers incl. out-of-range, expressions, strings, labels, $), RESB const / addr-$, directives that must emit nothing, with location-counter probes.",
+         "The model evaluates operands with math/big; directive forms gosk refuses with a diagnostic are out of scope.",
+         "DESIGN.md §5 C05"),
+ "C06": ("runtime monitoring: math/big expression evaluator versus the value observed in the output (DD lanes, immediates, displacements, RESB length)",
+         "Exploration: seeded expression trees up to depth 4 over boundary literals, five operators, parentheses, chained EQU names (reused after products/differences) and $, placed in every operand position that admits an expression, each in two spacings; plus differently interleaved constant terms.",
+         "Intermediate values are kept below 2^62 so that no verdict hinges on 64-bit overflow; division by zero is not generated.",
+         "DESIGN.md §5 C06"),
+ "C07": ("runtime monitoring: differential diagnostics + frame-embedded statement; silent acceptance judged by decoder / legality rules",
+         "Exploration: every mnemonic of the grammar (read from the tree) x operand lists of 0..3 operands over 17 operand kinds x modes (thorough: all 1- and 2-operand shapes), data directives with undefined symbols, pool instances; a statement accepted silently must be represented (non-empty, right location counter, right instruction) and must not be illegal or refer to undefined symbols.",
+         "Legality is rule-based (operand count of fixed-arity mnemonics, string operands, undefined symbols); forms outside the instance model are judged by operation name only. Findings F701-F711.",
+         "DESIGN.md §5 C07"),
+ "C08": ("runtime monitoring: strict COFF layout validator + Go debug/pe as independent reader over generated objects",
+         "Exploration: seeded WCOFF programs (.text empty to >64 KiB, GLOBAL lists with names of length 1..40 incl. 8/9, undefined/duplicate/prefix-related names, 1-4 GLOBAL statements, [FILE] names of length 0..64).",
+         "debug/pe is the independent reader (llvm-readobj/objdump are not needed).",
+         "DESIGN.md §5 C08"),
+ "C09": ("runtime monitoring: relational (.text == flat image) + walker offsets versus COFF symbol table",
+         "Exploration: seeded 32-bit programs x GLOBAL subsets/orderings/placements x name lengths x [FILE]; each assembled with and without FORMAT.",
+         "True label offsets come from the walker on the flat image (size-clean pool).",
+         "DESIGN.md §5 C09"),
+ "C10": ("runtime monitoring: recorded call histories in worker processes compared call-by-call with fresh-process (real CLI) references",
+         "Exploration of histories: a seeded pool (both formats, both modes, 70-symbol programs, shared statement texts, refused programs); every program's reference comes from two fresh CLI processes in different environments; 16 (quick) / 64 (thorough) histories of 200 / 5000 calls with repetition and re-execution of parsed trees.",
+         "The clock cannot be faked; time dependence would only show across runs. Worker deaths (os.Exit) are excluded from histories by construction.",
+         "DESIGN.md §5 C10"),
+ "C11": ("runtime monitoring: metamorphic relation (EQU-abstracted program versus textually inlined program, byte equality)",
+         "Exploration: seeded programs whose immediates, displacements, data lanes, RESB/ALIGNB arguments and EQU bodies use 1-5 chained EQU names, versus the inlined program; EQU-only prefixes emit nothing.",
+         "Both variants go through the same pipeline; refusals are symmetric and out of scope.",
+         "DESIGN.md §5 C11"),
+ "C12": ("runtime monitoring: metamorphic relation (token-preserving re-layouts versus canonical layout, byte equality)",
+         "Exploration: seeded programs x 6 (quick) / 12 (thorough) re-layouts varying comments, blank lines, indentation, blanks at every permitted gap, trailing whitespace, LF/CRLF/CR, final newline.",
+         "Only gaps where NASK lexically allows whitespace are varied (not inside tokens, not between a label and its colon, not after a unary minus).",
+         "DESIGN.md §5 C12"),
+ "C13": ("runtime monitoring: crash monitor (worker liveness, panic/fatal text), parser step counter as virtual time, CPU-time watchdog",
+         "Exploration with hostile inputs: all mnemonics x arities 0-4 x operand kinds, huge numbers in every numeric position, malformed directives, templates, random bytes, token soup, token/line mutations, size families to 1e5 tokens.",
+         "Unbounded input space is sampled; polynomial time is restated as bounded growth of pigeon's expression counter at doubling sizes plus a CPU watchdog. Finding F1301 (parser recursion depth).",
+         "DESIGN.md §5 C13"),
+ "C14": ("runtime monitoring: metamorphic relation out(A;B;C) == out(A)++out(B)++out(C)",
+         "Exploration: seeded label-free statement sequences from the clean pool (pairs, triples, single insertions at every position of 20-statement programs), both modes.",
+         "Statements with listed encoding defects are excluded from the pool.",
+         "DESIGN.md §5 C14"),
+ "C15": ("runtime monitoring: metamorphic relation under injective renaming (flat: byte equality; COFF: equality except names)",
+         "Exploration: seeded programs with labels and EQUs x adversarial and random renamings; reserved-prefix exclusion list read from the tree's grammars.",
+         "Names with a reserved word / mnemonic / register as a prefix are excluded because both grammars reject them as identifiers.",
+         "DESIGN.md §5 C15"),
+ "C16": ("runtime monitoring: metamorphic relation between images at different origins, absolute lanes located by the walker",
+         "Exploration: seeded 16-bit programs x 4 (quick) / 7 (thorough) origins; same length, identical bytes outside absolute lanes, delta inside.",
+         "RESB x-$ and numeric branch targets are excluded (their size legitimately depends on absolute values).",
+         "DESIGN.md §5 C16"),
+ "C17": ("runtime monitoring: metamorphic relation (program versus concatenation of its [BITS]-segments) + walker under per-segment modes",
+         "Exploration: seeded programs of 1-5 segments with the first directive placed among other directives, EQUs, comments; and mode-switching programs with labels.",
+         "Segments are label-free (concatenation part) or from the size-clean pool (walk part).",
+         "DESIGN.md §5 C17"),
+ "C18": ("runtime monitoring: emitted length versus an independent shortest-encoding length model, for encodings judged correct by the C01 oracle",
+         "Exploration: the six immediate-group ALU operations (+ADC/SBB) x every register and ~35 memory destinations x immediates -140..140 and boundaries, MOV acc<->moffs, MOV reg,imm, PUSH/POP reg, both modes; thorough enumerates all (~1.2e5).",
+         "An immediate qualifies for the imm8 form by its WRITTEN value (what NASK does); emitted < modelled minimum makes the case inconclusive (model error), never a violation.",
+         "DESIGN.md §5 C18"),
+ "C19": ("runtime monitoring: the real CLI binary in fresh processes (exit status, stdout, output file) versus contract and in-process API",
+         "Exploration: argument vectors of length 0-4 over path kinds, seeded programs through CLI versus API, UTF-8 and Shift_JIS comments (0x5c/0x7c trail bytes, half-width katakana, random pairs, at end of line before LF/CRLF), failing runs into fresh and pre-filled destinations.",
+         "Runs as root, so 'unreadable' is replaced by directory / below-a-file sources; no I/O fault injection.",
+         "DESIGN.md §5 C19"),
 }
 
 NOT_APPLICABLE = {
